@@ -46,6 +46,10 @@ fn parse_base(data: &[u8]) -> IResult<&[u8], LongRangeAisBroadcastMessage> {
         let (data, longitude) = map(
             |data| signed_i32(data, 18),
             |lon| {
+                // 181 degrees in 1/10 minute: longitude not available
+                if lon == 108_600 {
+                    return None;
+                }
                 parse_longitude(lon).map(|val| {
                     if message_type == 27 {
                         val * 1000.0
@@ -59,6 +63,10 @@ fn parse_base(data: &[u8]) -> IResult<&[u8], LongRangeAisBroadcastMessage> {
         let (data, latitude) = map(
             |data| signed_i32(data, 17),
             |lat| {
+                // 91 degrees in 1/10 minute: latitude not available
+                if lat == 54_600 {
+                    return None;
+                }
                 parse_latitude(lat).map(|val| {
                     if message_type == 27 {
                         val * 1000.0
